@@ -1,12 +1,13 @@
-//! C01/C17: conversions between the reference model (`cqlref::value`) and the driver's dynamic types
+//! C01/C17: conversions between the reference model (`crate::refvalue`) and the driver's dynamic types
 //! (`ColumnType`, `CqlValue`), plus thin wrappers that drive the driver's serialize/deserialize entry points.
 //! Conversions are structural and bit-preserving (floats via bits, uuids/varints via raw bytes).
 
 use bytes::Bytes;
-use cqlref::value::{Native, Type, Value};
+use crate::refvalue::{Native, Type, Value};
 use scylla_cql_core::deserialize::FrameSlice;
 use scylla_cql_core::deserialize::value::DeserializeValue;
 use scylla_cql_core::frame::response::result::{CollectionType, ColumnType, NativeType, UserDefinedType};
+use scylla_cql_core::serialize::SerializationError;
 use scylla_cql_core::serialize::row::SerializedValues;
 use scylla_cql_core::serialize::value::SerializeValue;
 use scylla_cql_core::serialize::writers::CellWriter;
@@ -203,11 +204,25 @@ pub fn udt_identity(c: &CqlValue) -> Option<(String, String)> {
 /// Outcome of one serialization attempt: framed cell bytes or the error text.
 pub type SerResult = Result<Vec<u8>, String>;
 
+/// Object-safe view of a bound value, so that the bulky check logic is compiled once instead of once per carrier.
+pub trait DynSer {
+    fn add_to(&self, sv: &mut SerializedValues, ct: &ColumnType) -> Result<(), SerializationError>;
+    fn write_cell(&self, ct: &ColumnType, buf: &mut Vec<u8>) -> Result<(), SerializationError>;
+}
+impl<T: SerializeValue> DynSer for T {
+    fn add_to(&self, sv: &mut SerializedValues, ct: &ColumnType) -> Result<(), SerializationError> {
+        sv.add_value(self, ct)
+    }
+    fn write_cell(&self, ct: &ColumnType, buf: &mut Vec<u8>) -> Result<(), SerializationError> {
+        self.serialize(ct, CellWriter::new(buf)).map(|_| ())
+    }
+}
+
 /// Through `SerializedValues::add_value` (the bind path): returns the cell bytes (without the u16 count)
 /// and the structural observations (element_count, iter().count()).
-pub fn ser_add_value<T: SerializeValue>(val: &T, ct: &ColumnType) -> (SerResult, u16, usize) {
+pub fn ser_add_value(val: &dyn DynSer, ct: &ColumnType) -> (SerResult, u16, usize) {
     let mut sv = SerializedValues::new();
-    let r = sv.add_value(val, ct);
+    let r = val.add_to(&mut sv, ct);
     let mut buf = Vec::new();
     sv.write_to_request(&mut buf);
     let n = sv.element_count();
@@ -229,9 +244,9 @@ pub fn ser_add_value<T: SerializeValue>(val: &T, ct: &ColumnType) -> (SerResult,
 }
 
 /// Through `SerializeValue::serialize` with a bare `CellWriter`.
-pub fn ser_cell_writer<T: SerializeValue + ?Sized>(val: &T, ct: &ColumnType) -> SerResult {
+pub fn ser_cell_writer(val: &dyn DynSer, ct: &ColumnType) -> SerResult {
     let mut buf = Vec::new();
-    match val.serialize(ct, CellWriter::new(&mut buf)) {
+    match val.write_cell(ct, &mut buf) {
         Ok(_) => Ok(buf),
         Err(e) => Err(e.to_string()),
     }
